@@ -186,6 +186,15 @@ func makePlans(r *vk.Run, chains []chain) []plan {
 	plans = append(plans, plan{Name: "zero-caller", Cfgs: singleRulePlanCfgs([]cfg{{Scope: R}}, rulesOf(zc)), Chains: all, Zero: true})
 	// rules-tree2 (ext_err_test.go): every tree of depth 2 over a small leaf set with group leaves, with / without ReadStates
 	plans = append(plans, plan{Name: "rules-tree2", Cfgs: tree2Cfgs(r.Thorough()), Chains: tree2Chains(chains, r.Thorough())})
+	// mirror (ext_mirror_test.go): configurations written in mirror keys / byte-reversed hashes x the chains
+	// through D(-G1) and F(G1,-G1) and every other chain of up to 2 steps
+	var mch []int
+	for _, i := range all {
+		if c := chains[i]; c.family() == "mirror" || len(c.Steps) <= 2 && (c.family() == "base" || r.Thorough()) {
+			mch = append(mch, i)
+		}
+	}
+	plans = append(plans, plan{Name: "mirror", Cfgs: mirrorCfgs(r.Thorough()), Chains: mch})
 	// facts: configurations reading groups x chains in which a contract changes its groups / destroys itself
 	plans = append(plans, plan{Name: "facts", Cfgs: factsCfgs(r.Thorough()), Chains: changing})
 	if r.Thorough() {
@@ -263,7 +272,6 @@ func TestCheck(t *testing.T) {
 	ext := identityChains(r.Thorough()) // ext_ident_test.go: contexts sharing a script hash, deployed contract as entry
 	sort.SliceStable(ext, func(i, j int) bool { return len(ext[i].Steps) < len(ext[j].Steps) })
 	chains = append(chains, ext...)
-	chains = append(chains, factsChains(r.Thorough())...) // ext_facts_test.go: the facts change during the execution
 	nw := r.Workers()
 	pool := make(chan *world, nw)
 	var first *world
@@ -281,6 +289,17 @@ func TestCheck(t *testing.T) {
 		}
 		pool <- w
 	}
+	// ext_mirror_test.go: contracts carrying the mirror key of a group key (F: a key and its mirror)
+	if first.noF != "" {
+		fmt.Println("NOTE: the contract with groups (G1, mirror key of G1) could not be deployed, chains through it are left out:", first.noF)
+		r.Outcome("setup:contract-with-a-key-and-its-mirror-key-refused")
+	}
+	mc := mirrorChains(r.Thorough(), first.noF == "")
+	sort.SliceStable(mc, func(i, j int) bool { return len(mc[i].Steps) < len(mc[j].Steps) })
+	chains = append(chains, mc...)
+	cov["mirror_chain_variants"] = len(mc)
+	cov["mirror_contract_with_key_and_mirror_key_deployed"] = b2i(first.noF == "")
+	chains = append(chains, factsChains(r.Thorough(), first.noF == "")...) // ext_facts_test.go: the facts change during the execution
 	builts := make([]*built, len(chains))
 	for i, c := range chains {
 		b, err := first.build(c)
@@ -436,6 +455,18 @@ func TestCheck(t *testing.T) {
 			"checkwitness_evaluations": pEvals.Get(), "observed_true": pTrue.Get(), "observed_false": pFalse.Get(), "observed_fault": pErr.Get(),
 			"nors_reference_no_verdict": pNone.Get(), "nors_reference_verdict": pVerdict.Get(), "nors_reference_verdict_or_fault": pEither.Get(),
 			"distinct_check_situations": pSits.Len(), "distinct_outcome_classes": pClasses.Len()}
+		if p.Name == "mirror" {
+			nm := 0
+			for _, c := range p.Cfgs {
+				if c.usesMirror() {
+					nm++
+				}
+			}
+			cov["mirror_configs"], cov["mirror_configs_naming_a_mirror_key_or_reversed_hash"], cov["mirror_chains"], cov["mirror_invocations"] = len(p.Cfgs), nm, len(p.Chains), done
+			cov["mirror_checkwitness_evaluations"] = int(pEvals.Get())
+			cov["mirror_observed_true"], cov["mirror_observed_false"], cov["mirror_observed_fault"] = int(pTrue.Get()), int(pFalse.Get()), int(pErr.Get())
+			cov["mirror_distinct_check_situations"], cov["mirror_distinct_outcome_classes"] = pSits.Len(), pClasses.Len()
+		}
 		if p.Name == "rules-tree2" { // scalars survive the merge of the evidence
 			cov["tree2_configs"], cov["tree2_chains"], cov["tree2_invocations"] = len(p.Cfgs), len(p.Chains), done
 			cov["tree2_checkwitness_evaluations"] = int(pEvals.Get())
@@ -475,6 +506,9 @@ func TestCheck(t *testing.T) {
 			"distinct_check_situations": len(fs.sits), "distinct_outcome_classes": len(fs.classes), "levels_sharing_a_hash_with_another_context": len(fs.cells)}
 		if strings.HasPrefix(name, "facts-") { // scalars survive the merge of the evidence
 			k := strings.ReplaceAll(name, "-", "_")
+			if name == "mirror" {
+				k = "mirror_family"
+			}
 			cov[k+"_chain_variants"], cov[k+"_invocations"], cov[k+"_checkwitness_evaluations"] = len(fs.chains), fs.inv, fs.evals
 			cov[k+"_distinct_check_situations"], cov[k+"_distinct_outcome_classes"] = len(fs.sits), len(fs.classes)
 		}
@@ -511,11 +545,20 @@ func TestCheck(t *testing.T) {
 		"key-to-account mapping (verification script hash of a public key) and manifest group signature checks are trusted",
 		"facts extension: a contract of the chain (A, B(G1) or C(G1,G2), entry + up to 3 steps, optionally a dynamic script loaded last) replaces its manifest groups by another set (ContractManagement.update with nef=null and the same manifest re-signed for the new groups) or destroys itself, between two rounds of checks and before calling the next step; with `throw` the frame throws after its second round and the calling contract catches (the change is rolled back); the groups of a contract are the groups ContractManagement holds at the moment of the check (a destroyed contract has none) - the harness reads them through the execution's own DAO at every check and reports a difference from the model as 'stored-groups-differ-from-model'; a destroyed contract is not called again (the call would fault); update is always done by the contract itself (ContractManagement updates its caller), 'changed by a callee' is the re-entrant shape X>Y>X",
 		"oracle-callback extension: checks executed in the callback of an oracle response and in everything it calls are decided against the signers of the transaction that made the request (for a request made BY a callback: of the first transaction of that history, Oracle.getOriginalTxID), whatever the response transaction's signers are; checks in the response transaction's entry script before Oracle.finish and after the callback returned, and in later transactions of the block, against that transaction's own signers. Context chain inside the callback: entry = the response script, calling contract of the callback = native Oracle (so the callback is NOT called by entry and the Oracle hash itself is witnessed there by the calling-contract rule), the steps below as usual",
-		"oracle-callback extension, bounds: one chain per worker (3) with K (callback contract, group G2) next to A, B(G1), C(G1,G2), oracle node designated, requests T1 (sender CalledByEntry + 14 accounts carrying {None, CalledByEntry, Global, CustomContracts{K}, CustomContracts{A}, CustomGroups{G2}, CustomGroups{G1}, Rules[Allow CalledByContract(Oracle)], Rules[Allow CalledByEntry], Rules[Allow ScriptHash(K)], Rules[Allow Group(G2)], Rules[Allow CalledByGroup(G2)], Rules[Deny CalledByContract(Oracle); Allow true], Rules[Allow CalledByContract(K)]} + contract B), T2 (sender None, menu rotated by 5, the oracle nodes' account with Global), T3 (sender Global alone); response signer sets {native Oracle + nodes (None) | those + the 14 accounts with the menu rotated by 9}; steps below the callback: none or one of {A, B, C, K, dynamic script} (thorough: two); variants plain / innermost frame throws and is caught / callback throws (with and without TRY around Oracle.finish) / callback makes a new request first; standard response script or [checks; Oracle.finish; checks]; every level asks again after the call below it returned",
+		"oracle-callback extension, bounds: one chain per worker (3) with K (callback contract, group G2) next to A, B(G1), C(G1,G2), oracle node designated, requests T1 (sender CalledByEntry + 14 accounts carrying {None, CalledByEntry, Global, CustomContracts{K}, CustomContracts{A}, CustomGroups{G2}, CustomGroups{G1}, Rules[Allow CalledByContract(Oracle)], Rules[Allow CalledByEntry], Rules[Allow ScriptHash(K)], Rules[Allow Group(G2)], Rules[Allow CalledByGroup(G2)], Rules[Deny CalledByContract(Oracle); Allow true], Rules[Allow CalledByContract(K)]} + contract B), T2 (sender None, menu rotated by 5, the oracle nodes' account with Global), T3 (sender Global alone), T4 (round 6: sender None + the 14 accounts carrying the menu written in mirror keys / byte-reversed hashes: CustomGroups{-G2}, CustomGroups{-G1}, Rules over Group(-G2), CalledByGroup(-G2), Group(-G1) as Allow and as [Deny; Allow true], CustomContracts{reversed K}, ScriptHash(reversed K), CalledByContract(reversed Oracle | reversed K), CustomContracts{reversed A, B, C}); response signer sets {native Oracle + nodes (None) | those + the 14 accounts with the menu rotated by 9}; steps below the callback: none or one of {A, B, C, K, dynamic script} (thorough: two); variants plain / innermost frame throws and is caught / callback throws (with and without TRY around Oracle.finish) / callback makes a new request first; standard response script or [checks; Oracle.finish; checks]; every level asks again after the call below it returned",
 		"oracle-callback extension: response transactions with other signers than (Oracle, nodes; scope None) or another script than the standard one cannot enter a block (verifyTxAttributes); they are test invocations only, exactly like every other transaction of this check. A throwing callback ends the whole execution even under a TRY of the entry script (accepted: the execution may end there; had it gone on, the remaining checks would be judged against the own signers). That the interop context still holds the original signers after such a FAULT is counted (oracle_contexts_left_with_switched_signers_after_the_execution_not_judged), not judged: nothing executes on that context afterwards",
 		"oracle-callback extension, not enumerated: callbacks reached through CALLT, callbacks without ReadStates (the callback always gets all flags), an updated/destroyed callback contract (the response faults before any check), native callers below the callback",
+		"mirror extension (round 6): the mirror key of a key (same X, opposite Y) is another key, the byte-reversed reading of a hash another hash: a scope or condition written in one of them says nothing about the other. Contracts D (group -G1) and F (groups G1 and -G1) next to A, B(G1), C(G1,G2); plan `mirror` = CustomGroups over {-G1}, {G1}, {-G2}, {G1,-G1}, {-G1,G2}, {-G1,-G2}, {-G3}, {G3,-G3}, {-G2,G3}, {G2} alone and next to CalledByEntry / CustomContracts{A} / Rules[Allow CalledByGroup(-G1)]; CustomContracts over reversed hashes; [Allow|Deny t] for every tree t of depth <= 1 over Group/CalledByGroup x {G1,-G1,G2,-G2} + CalledByEntry + ScriptHash(B); every rule list of length 2 over those 8 leaves and Bool(true); ScriptHash / CalledByContract of reversed hashes (A, B, D, GAS, entry, dynamic script) as Allow, [Deny; Allow true], Allow Not; on the chains through D / F (1..2 steps over {A,B,C,D,F} containing D or F, D>L, F>L, GAS.transfer->D|F, B>GD, D>GB, four 3-step chains; thorough all 3-step chains over {B,D,F}) and every base chain of up to 2 steps. Every level of every chain of every plan also asks for the byte-reversed hash of its calling contract and for the account of the mirror key of signer 0's key (never witnessed). Facts extension: a contract replaces G1 by -G1 / adds -G1 (chains of up to 2 steps), a third transaction of configurations in mirror keys. Match layer: stub contexts compare keys by encoding; trees of depth <= 1 are also run in a world whose second key is the mirror of the first. The reference compares keys by their 33-byte encodings only",
+		"mirror extension: should the subject refuse to deploy F (a manifest lists distinct keys, and a key and its mirror are distinct), the chains through F are left out and the run says so (NOTE line, outcome class, counter mirror_contract_with_key_and_mirror_key_deployed=0); not judged by itself",
 		"facts extension, not enumerated: _deploy callbacks (U has none), updates replacing the script, chains with native callers or without ReadStates, contracts deployed during the execution",
 	})
+}
+
+func b2i(b bool) int {
+	if b {
+		return 1
+	}
+	return 0
 }
 
 // runJob executes one transaction (signer batch) on one chain and judges it.
@@ -573,10 +616,11 @@ func replay(r *vk.Run) {
 	case "match":
 		var f matchFail
 		_ = r.ReadReplay(&f)
-		m := newMatchWorld()
+		m := newMatchWorldKeys(f.World == "mirror-keys")
 		m.nE = len(m.ectxs)
 		for i := 0; i < 5; i++ {
 			m.checkTree(m.mk(f.Tree), true, func(g matchFail) {
+				g.World = f.World
 				if g.Form != f.Form || (f.Ctx >= 0 && g.Ctx != f.Ctx) {
 					return
 				}
